@@ -78,6 +78,14 @@ def main():
 
 
 NA = {}
+CLAIMS["C01"] = ("exploration",
+    "randomised schedule search: concurrent scenarios over every configuration axis of the statement (n vs q, refresh modes and rates, synchronised decorators, priorities, pop, removal, concurrent Write, cancel) with keyed delays and directed holds at the library's hook points, GOMAXPROCS variation, 8-16 worker processes; the oracle is a decidable hang verdict (all library and client goroutines blocked with identical stacks and no hook event, or the frame bound exceeded), never a bare timeout",
+    "interleavings inside one perturbation window are sampled by the Go scheduler, not enumerated; a failure reproduces with high, not certain, probability (replay re-runs a scenario 20 times)",
+    "property-based testing (rapid) of generated concurrent programs with schedule perturbation and a goroutine-state hang oracle")
+CLAIMS["C02"] = ("exploration",
+    "randomised schedule search over the whole public API from 1-4 client goroutines with the done event (cancel/Shutdown) at a generated position and a generated suffix of late calls after Wait; worker-process death (panic, fatal error) is a violation with the journalled scenario as replay; hang verdict as C01; late-call contract (ErrDone, nil proxies, unchanged getters, no output) checked exactly",
+    "as C01; documented panics are not generated",
+    "property-based testing (rapid) of generated concurrent API histories with crash journal, hang oracle and late-call contract")
 CLAIMS["C03"] = ("exploration",
     "stateful PBT over programs on auto-refreshing containers (injected render clock racing with early refresh, and a real ticker): the last chunk written before Wait returned is parsed by row tags and compared with a reference end-state model (who remains, final state, on-complete/on-abort decorations), getters after Wait must agree with it, and no write may follow Wait",
     "one output Write = one frame; the end-state model is derived from the program only (first terminal event wins); runs with cancel/Shutdown judge only rows of bars that finished by themselves; hangs are left to C01",
